@@ -188,7 +188,15 @@ def check_config(ctx, F, tag, cfg):
             i2 = byt.get("bits::_SELECT_IN_BYTE")
             ok1 = i1 is not None and m(Bin("Add", Param(1), Const(1)), i1) and len(pso) >= 64 + 1
             # (relative_rank << 8) + (x & 0xFF): relative_rank <= 7 under the contract (reviewed), so the index is < 8 * 256 = len
-            ok2 = i2 is not None and m(Bin("Add", Bin("Shl", Bind("rr"), Const(8)), Bin("BitAnd", ANY, Const(255))), i2) and len(sib) == 8 * 256
+            env2 = {}
+            ok2 = i2 is not None and m(Bin("Add", Bin("Shl", Bind("rr"), Const(8)), ANY), i2, env2) and len(sib) == 8 * 256
+            if ok2:
+                # the byte: `x & 0xFF`, `x as u8`, ... anything that is at most 255 by construction (casts kept: they carry the bound)
+                import c08
+                add = core(i2)
+                lo = add[3] if m(Bin("Shl", ANY, Const(8)), add[2]) else add[2]
+                lo_max = c08.max_value(F, sel, lo, None)
+                ok2 = lo_max is not None and lo_max <= 255
             ok = ok1 and ok2
             detail = "_PS_OVERFLOW[%s] (rank < 64 by contract, table has 65 entries): %s; _SELECT_IN_BYTE[%s] (relative rank <= 7, table has 8*256 entries): %s" % (
                 tstr(i1) if i1 else "?", ok1, tstr(i2)[:70] if i2 else "?", ok2)
